@@ -7,6 +7,6 @@ from progprop import replay
 def run(tier):
     import os
     seed = int(os.environ.get('VERIF_SEED', '0') or 0)
-    return progprop.run('C08', tier, tmpl.committed() + tmpl.random_tree_programs(seed + 202, 8 if tier == 'quick' else 300), 'c08',
+    return progprop.run('C08', tier, tmpl.committed() + tmpl.random_tree_programs(seed + 202, 8 if tier == 'quick' else 100), 'c08',
                         'conda / condu / onceo programs executed symbolically from MIR; heads with 0, 1 or several answers (several: produced '
                         'in deterministic dfs order) and failing / succeeding rests; answers compared with the soft-cut / committed-choice reference.')
